@@ -250,6 +250,7 @@ func checkC08(c *Ctx) {
 		return fnPkgPath(f) == "reflect" && f.Signature.Recv() != nil && (f.Name() == "Call" || f.Name() == "CallSlice")
 	}
 	cfgReach := map[string]int{}
+	rtas := map[string]*RTA{}
 	for _, cf := range configs {
 		r := newRTA(c.Prog, cf.flags(c), func(f *ssa.Function) bool { return false })
 		for _, name := range cf.roots {
@@ -270,6 +271,7 @@ func checkC08(c *Ctx) {
 			}
 		}
 		r.run()
+		rtas[cf.name] = r
 		cfgReach[cf.name] = len(r.reach)
 		nReach := 0
 		for _, s := range sites {
@@ -330,7 +332,131 @@ func checkC08(c *Ctx) {
 			continue
 		}
 		c.checkFlagWriters(fc.field)
+		c.checkFlagWindow(fc.field, rtas["cmd"])
 	}
+}
+
+// checkFlagWindow: pruning on the interpreter-level flag is sound only if
+// every interpreter that exists in a sandbox configuration carries the flag
+// from the moment it exists:
+//
+//	(1) wherever a Zlisp value is allocated, the flag is stored into it before
+//	    any call is made (same block, no call in between);
+//	(2) the value stored is the constant true, a copy of the flag of another
+//	    interpreter, or a parameter that is the constant true at every call
+//	    site reachable in the sandbox configuration.
+func (c *Ctx) checkFlagWindow(fld *types.Var, r *RTA) {
+	zl := c.named("Zlisp")
+	if zl == nil || r == nil {
+		return
+	}
+	nAlloc := 0
+	for f := range ssautil.AllFunctions(c.Prog) {
+		if fnPkgPath(f) != zygoPath {
+			continue
+		}
+		_, reachable := r.reach[f]
+		for _, b := range f.Blocks {
+			for i, in := range b.Instrs {
+				a, ok := in.(*ssa.Alloc)
+				if !ok {
+					continue
+				}
+				pt, ok := a.Type().(*types.Pointer)
+				if !ok || !types.Identical(pt.Elem(), zl) {
+					continue
+				}
+				nAlloc++
+				if !reachable {
+					c.ok("C08-FLAG", fnName(f), "alloc Zlisp", in.Pos(), "allocation not reachable in any sandbox configuration")
+					continue
+				}
+				var val ssa.Value
+				for _, nx := range b.Instrs[i+1:] {
+					if _, isCall := nx.(ssa.CallInstruction); isCall {
+						break
+					}
+					if st, ok := nx.(*ssa.Store); ok {
+						if fa, ok := st.Addr.(*ssa.FieldAddr); ok && fa.X == a {
+							s := zl.Underlying().(*types.Struct)
+							if s.Field(fa.Field) == fld {
+								val = st.Val
+								break
+							}
+						}
+					}
+				}
+				if val == nil {
+					c.bad("C08-FLAG", fnName(f), "alloc Zlisp", in.Pos(),
+						"an interpreter is allocated in sandbox-reachable code and the sandbox flag is not stored into it before the next call: code running in between (or ever after) sees a non-sandboxed interpreter")
+					continue
+				}
+				okv, why := c.flagValueOK(val, fld, f, r)
+				c.check(okv, "C08-FLAG", fnName(f), "alloc Zlisp", in.Pos(), "flag stored at allocation: "+why, "flag stored at allocation may be false in a sandbox configuration: "+why)
+			}
+		}
+	}
+	if nAlloc == 0 {
+		c.undecided("C08-FLAG", "Zlisp", "alloc Zlisp", token.NoPos, "no allocation of Zlisp found; the constructors moved")
+	}
+}
+
+func (c *Ctx) flagValueOK(val ssa.Value, fld *types.Var, f *ssa.Function, r *RTA) (bool, string) {
+	switch v := val.(type) {
+	case *ssa.Const:
+		if v.Value != nil && v.Value.String() == "true" {
+			return true, "constant true"
+		}
+		return false, "constant false"
+	case *ssa.UnOp:
+		if v.Op == token.MUL {
+			if fa, ok := v.X.(*ssa.FieldAddr); ok {
+				s := fa.X.Type().Underlying().(*types.Pointer).Elem().Underlying().(*types.Struct)
+				if s.Field(fa.Field) == fld {
+					return true, "copy of another interpreter's flag"
+				}
+			}
+		}
+	case *ssa.Parameter:
+		idx := -1
+		for i, p := range f.Params {
+			if p == v {
+				idx = i
+			}
+		}
+		n := 0
+		for caller := range r.reach {
+			for _, e := range r.edges[caller] {
+				if e.callee != f {
+					continue
+				}
+				if e.kind != "static" {
+					return false, "constructor called dynamically from " + fnName(caller)
+				}
+				if !r.siteLive(caller, e.pos) {
+					continue
+				}
+				// find the call instruction
+				for _, b := range caller.Blocks {
+					for _, in := range b.Instrs {
+						if ci, ok := in.(ssa.CallInstruction); ok && in.Pos() == e.pos && ci.Common().StaticCallee() == f {
+							arg := ci.Common().Args[idx]
+							k, isC := arg.(*ssa.Const)
+							if !isC || k.Value == nil || k.Value.String() != "true" {
+								return false, "called with a flag that is not the constant true from " + fnName(caller) + " at " + c.pos(e.pos)
+							}
+							n++
+						}
+					}
+				}
+			}
+		}
+		if _, isRoot := r.reach[f]; isRoot && r.reach[f].caller == nil {
+			return false, "constructor is itself a root"
+		}
+		return n > 0, fmt.Sprintf("parameter; constant true at all %d call sites reachable in the sandbox configuration", n)
+	}
+	return false, "value not understood: " + val.String()
 }
 
 func keys(m map[string]bool) []string {
@@ -346,30 +472,22 @@ func keys(m map[string]bool) []string {
 // survives flag pruning.
 func (r *RTA) siteLive(f *ssa.Function, pos token.Pos) bool {
 	live := r.liveBlocks(f)
+	found := false
 	for _, b := range f.Blocks {
 		for _, in := range b.Instrs {
 			if in.Pos() == pos {
+				found = true
 				if live[b] {
 					return true
 				}
 			}
 		}
 	}
-	// position not found (synthetic): be conservative
-	found := false
-	for _, b := range f.Blocks {
-		for _, in := range b.Instrs {
-			if in.Pos() == pos {
-				found = true
-			}
-		}
-	}
-	return !found
+	return !found // position not found (synthetic): be conservative
 }
 
-// checkFlagWriters: every store to the interpreter-level sandbox flag is
-// either the constant true inside the sandbox constructor or a copy of the
-// same field of another interpreter (Clone/Duplicate).
+// checkFlagWriters: every store to the interpreter-level sandbox flag is at
+// an allocation site (checked by checkFlagWindow); any other store is reported.
 func (c *Ctx) checkFlagWriters(fld *types.Var) {
 	for f := range ssautil.AllFunctions(c.Prog) {
 		if fnPkgPath(f) != zygoPath {
@@ -389,21 +507,9 @@ func (c *Ctx) checkFlagWriters(fld *types.Var) {
 				if s.Field(fa.Field) != fld {
 					continue
 				}
-				fnm := fnName(f)
-				okStore := false
-				detail := ""
-				if k, isConst := st.Val.(*ssa.Const); isConst && k.Value != nil && k.Value.String() == "true" {
-					okStore = strings.Contains(fnm, "Sandbox")
-					detail = "stores true"
-				} else if u, isLoad := st.Val.(*ssa.UnOp); isLoad && u.Op == token.MUL {
-					if fa2, ok := u.X.(*ssa.FieldAddr); ok {
-						s2 := fa2.X.Type().Underlying().(*types.Pointer).Elem().Underlying().(*types.Struct)
-						okStore = s2.Field(fa2.Field) == fld
-						detail = "copies the flag"
-					}
-				}
-				c.check(okStore, "C08-FLAG", fnm, "store "+fld.Name(), in.Pos(), detail,
-					"the sandbox flag is written outside the sandbox constructor / a copy: pruning on it is unsound")
+				_, atAlloc := fa.X.(*ssa.Alloc)
+				c.check(atAlloc, "C08-FLAG", fnName(f), "store "+fld.Name(), in.Pos(), "flag written into a freshly allocated interpreter",
+					"the sandbox flag of an existing interpreter is overwritten: pruning on it is unsound, and a sandboxed interpreter can be un-sandboxed")
 			}
 		}
 	}
